@@ -386,7 +386,7 @@ class Shelxfile():
             while multiline:
                 # Glue together the two lines wrapped with "=":
                 wrapindex += 1
-                line = line.rpartition('=')[0] + self._reslist[line_num + wrapindex]
+                line = line.split('!')[0].rpartition('=')[0] + self._reslist[line_num + wrapindex]
                 # A line that no card below replaces stays text: it keeps its continuation lines verbatim.
                 self._reslist[line_num] += '\n' + self._reslist[line_num + wrapindex]
                 # self.delete_on_write.update([line_num + wrapindex])
